@@ -328,12 +328,10 @@ class AudioDescriptor(SpliceDescriptor):
         w.write(4, 'audio_count', value=len(self.audio_components))
         w.write(4, 'reserved', 0x0F)
         for comp in self.audio_components:
-            cw = w.duplicate(comp)
-            cw.write(8, 'tag')
-            cw.write(24, 'ISO_code')
-            cw.write(3, 'Bit_Stream_Mode')
-            cw.write(4, 'Num_Channels')
-            cw.write(1, 'Full_Srvc_Audio')
+            # each component is a dictionary (that is what parse_fields creates)
+            for size, name in ((8, 'tag'), (24, 'ISO_code'), (3, 'Bit_Stream_Mode'),
+                               (4, 'Num_Channels'), (1, 'Full_Srvc_Audio')):
+                w.write(size, name, value=comp[name])
 
 
 for desc in [AvailDescriptor, DtmfDescriptor, SegmentationDescriptor,
